@@ -14,6 +14,9 @@ import PyamgV.Proofs.ExtC07CCert
 import PyamgV.Proofs.ExtC07CReal
 import PyamgV.Proofs.ExtC07CFinite
 import PyamgV.Model.ExtC07CExample
+import PyamgV.Proofs.ExtCGVecHh
+import PyamgV.Proofs.ExtCGRestart
+import PyamgV.Model.ExtCGExample
 import Mathlib.Analysis.Real.Sqrt
 
 /-! # C07 — Krylov iterates are the optimal elements of the Krylov space
@@ -343,6 +346,79 @@ example : cgOut.length = 2 ∧ cgOut[0]? ≠ cgOut[1]? ∧ cgOut[1]? = some s₁
 `M A = A M` of `complex_cr_optimal` cannot be dropped -/
 example : crOut.length = 2 ∧ crOut[1]? ≠ some s₁ := cr_two_steps_noncommuting
 end example2c
+
+
+/-! ### extension E43 — the complex GMRES family as executable models with end-to-end theorems
+
+`Model/ExtCGGmres.lean` holds the models of one cycle of `gmres_mgs`, `gmres_householder`, `fgmres` **on complex data**
+(`cgmresMgs`, `cgmresHh`, `cfgmresHh`: conjugated inner products, `zlartg` rotations `[[c, s], [-conj s, c]]` with real
+`c`, `_mysign` of a complex number, `-2 conj(w[inner])` in the Householder direction), written over a scalar type with a
+conjugation; op `ext_cg_cycle` runs them on pairs of binary64 numbers (`CP Float`) and the check compares the iterates
+with the callback log of the public functions on complex systems.  The theorems are about the same definitions over a
+field with an involution and an exact square root of its non-negative reals, in particular over the pairs `CP F`,
+`F` an ordered field with `sqrtF a · sqrtF a = a` (`a ≥ 0`).  Hypothesis `g[m+1] ≠ 0` (the recorded estimate is
+non-zero): it certifies that no breakdown occurred so far, nothing else is assumed. -/
+
+/-- what `zlartg` returns for `g ≠ 0`: real `c`, `c² + |s|² = 1`, `−conj(s) f + c g = 0` -/
+restate complex_lartg_contract := PyamgV.ExtCG.clartg_spec
+/-- one live rotation keeps the rotated-basis invariant of the Givens bookkeeping (any orthogonalisation) -/
+restate complex_givens_invariant_step := PyamgV.ExtCG.rb_step
+/-- the invariant ⇒ the iterate `x₀ + Σ y_j z_j` (`y` from the back substitution) minimises the residual norm over
+`x₀ + span{z_j}`, in the Hermitian setting (through `CHerm.petrov_optimal`) -/
+restate complex_givens_optimal := PyamgV.ExtCG.rb_optimal
+/-- the complex Householder vector: unit (or zero) and its reflection maps `u` to `−sgn(u_i) ‖u‖ e_i` -/
+restate complex_householder_vector := PyamgV.ExtCG.chouseh
+/-- one complex Householder--Arnoldi step keeps the invariant (orthonormal `v_l = P_0 ⋯ P_k e_l`, Arnoldi relation) -/
+restate complex_householder_arnoldi_step := PyamgV.ExtCG.chhInv_step
+/-- complex `gmres_mgs`, module level: the callback iterate minimises `‖M (b − A x)‖` over `x₀ + K_{m+1}(MA, M r₀)` -/
+restate complex_gmres_mgs_optimal_krylov := PyamgV.ExtCG.cgmres_mgs_optimal_krylov
+/-- complex `gmres_householder`, module level -/
+restate complex_gmres_householder_optimal_krylov := PyamgV.ExtCG.cgmres_hh_optimal_krylov
+/-- complex `fgmres`, module level: minimal `‖b − A x‖` over `x₀ + span{z_j}`, `z_j = pre j (v_j)`, any maps `pre j` -/
+restate complex_fgmres_optimal := PyamgV.ExtCG.cfgmres_optimal
+/-- … for the `Vector K n` instance the driver executes -/
+restate complex_gmres_mgs_vec_optimal_krylov := PyamgV.ExtCG.cgmres_mgs_vec_optimal_krylov
+restate complex_gmres_householder_vec_optimal_krylov := PyamgV.ExtCG.cgmres_hh_vec_optimal_krylov
+restate complex_fgmres_vec_optimal := PyamgV.ExtCG.cfgmres_vec_optimal
+/-- restarted complex GMRES(MGS) (op `ext_cg_cycle mgsr`): entry `j·r + m` of the log is optimal within cycle `j` -/
+restate complex_gmres_restart_vec_optimal := PyamgV.ExtCG.cgmres_restart_vec_optimal
+/-- … and over pairs `(re, im)` of an ordered field with an exact square root (the arithmetic `ext_cg_cycle` performs in
+binary64) -/
+restate complex_gmres_mgs_pairs_optimal_krylov := PyamgV.ExtCG.cgmres_mgs_cp_optimal_krylov
+restate complex_gmres_householder_pairs_optimal_krylov := PyamgV.ExtCG.cgmres_hh_cp_optimal_krylov
+restate complex_fgmres_pairs_optimal := PyamgV.ExtCG.cfgmres_cp_optimal
+/-- the pairs with the model's operations are a field with involution `CP.conj`; the instances are the model's -/
+restate complex_pairs_instances := PyamgV.ExtCG.CP.cp_instances
+
+section exampleE43
+open PyamgV.ExtCG PyamgV.C07
+/-- the hypotheses of the pair theorems are satisfiable: over `ℝ` with `Real.sqrt`, any `4 × 4` complex system -/
+example (A M : Vector (Vector (CP ℝ) 4) 4) (b x0 : Vector (CP ℝ) 4)
+    (hg : PyamgV.C07.F (cgVec A M (CP.sqrtRe Real.sqrt) b x0 2).g 2 ≠ 0) :
+    ∀ y : Vector (CP ℝ) 4,
+      toFn y - toFn x0 ∈ ckry (linOf M ∘ₗ linOf A) (linOf M (toFn b - linOf A (toFn x0))) 2 →
+      (vdot CP.conj (presV A M b (xkV A M (CP.sqrtRe Real.sqrt) b x0 1))
+          (presV A M b (xkV A M (CP.sqrtRe Real.sqrt) b x0 1))).re ≤
+        (vdot CP.conj (presV A M b y) (presV A M b y)).re :=
+  (cgmres_mgs_cp_optimal_krylov Real.sqrt (fun _ h => Real.mul_self_sqrt h) A M b x0 1 (by decide) hg).2
+/-- the iterate of the theorems is the last entry of what the model (with the operations of `Model/ExtCGComplex.lean`)
+returns -/
+example (A M : Vector (Vector (CP ℝ) 4) 4) (b x0 : Vector (CP ℝ) 4) (m : Nat) :
+    xkV A M (CP.sqrtRe Real.sqrt) b x0 m =
+      (cgmresMgs (vecOps CP.conj A M) CP.conj (CP.sqrtRe Real.sqrt) nzK 4 b x0 (m + 1)).getLast?.getD x0 := rfl
+example (A M : Vector (Vector (CP ℝ) 4) 4) (b x0 : Vector (CP ℝ) 4) (m : Nat) :
+    xkH A M (CP.sqrtRe Real.sqrt) b x0 m =
+      (cgmresHh (hopsVec CP.conj A M) CP.conj (CP.sqrtRe Real.sqrt) (sgnCP Real.sqrt) nzK 4 b x0 (m + 1)).getLast?.getD x0 :=
+  rfl
+/-- a concrete complex run evaluated by the kernel (`A = [[3i, 1], [4, 2i]]`, `b = (5, 0)`; all square roots rational):
+all three models return `x_1 = (−3i/5, 0)`, the minimiser of `‖b − A x‖` over `span{b}` -/
+example : cgmresMgs (vecOps CP.conj Ex.cA Ex.cI) CP.conj Ex.sqQ Ex.nzQ 2 Ex.cb #v[⟨0, 0⟩, ⟨0, 0⟩] 1 =
+      [#v[⟨0, -3/5⟩, ⟨0, 0⟩]] ∧
+    cgmresHh (hopsVec CP.conj Ex.cA Ex.cI) CP.conj Ex.sqQ Ex.sgQ Ex.nzQ 2 Ex.cb #v[⟨0, 0⟩, ⟨0, 0⟩] 1 =
+      [#v[⟨0, -3/5⟩, ⟨0, 0⟩]] ∧
+    cfgmresHh (hopsVec CP.conj Ex.cA Ex.cI) CP.conj Ex.sqQ Ex.sgQ Ex.nzQ 2 (fun _ v => v) Ex.cb #v[⟨0, 0⟩, ⟨0, 0⟩] 1 =
+      [#v[⟨0, -3/5⟩, ⟨0, 0⟩]] := Ex.cycle_iterates
+end exampleE43
 
 /-- the square-root hypotheses of the GMRES theorems are satisfiable (over `ℝ`) -/
 example : ∃ sqrt : ℝ → ℝ, (∀ a, 0 ≤ a → sqrt a * sqrt a = a) ∧ (∀ a, 0 ≤ sqrt a) :=
